@@ -85,6 +85,9 @@ def cases(tier, seed):
     for op in OPS:
         for m in sp.structures_upto(3 if tier == 'quick' else 4):
             yield ('HE', op, m)
+    for op in ('FMMetrics', 'FMCoreFeatures', 'FMEstimatedConfigurationsNumber', 'FMAtomicSets'):
+        for t in list(cm.k1())[::3] + list(cm.k2_subset())[::5]:
+            yield ('HE', op, cm.on_carrier([t]))
     # an execution that raises half-way, then the well-formed model (same operation object, fresh one)
     for op in OPS:
         for m in list(sp.structures_upto(4 if tier == 'quick' else 5))[1:] + alpha[-6:]:
